@@ -908,8 +908,54 @@ func TestOracleC11(t *testing.T) {
 }
 
 // C12: routing by transaction id, many transactions, recycled objects.
+// recycledDuringFailingWrite: the first write of Start(X) fails; while it is failing (no client lock is held) the
+// response for X is processed - X completes, its transaction object goes back to the pool - and another goroutine
+// starts Y, which is handed the recycled object. The failing Start(X) must not disturb Y: Y's response reaches Y's
+// handler, exactly once. (Simulated interleaving: everything "the other goroutines do" happens inside the failing Write.)
+func (o *oracle) recycledDuringFailingWrite() {
+	w := newOcWorld(o, 2, 100*time.Millisecond, false, true)
+	if w == nil {
+		return
+	}
+	o.cases++
+	var callsX, callsY int
+	mx, my := w.build(0x51, 20), w.build(0x52, 20)
+	var startYErr error
+	w.conn.mu.Lock()
+	w.conn.failNext = true
+	w.conn.onFail = func(p []byte) {
+		r := new(Message)
+		r.Raw = append(r.Raw, w.response(0x51, 1)...)
+		if r.Decode() == nil {
+			_ = w.agent.Agent.Process(r)
+		}
+		startYErr = w.client.Start(my, func(Event) { callsY++ })
+	}
+	w.conn.mu.Unlock()
+	errX := w.client.Start(mx, func(Event) { callsX++ })
+	if callsX != 1 {
+		o.failf("history [Start(X) with a failing first write during which X's response is processed and Start(Y) runs]: handler of X called %d times (Start(X) returned %v)", callsX, errX)
+	}
+	if startYErr != nil {
+		return // Y could not be started (not what this scenario is about)
+	}
+	ry := new(Message)
+	ry.Raw = append(ry.Raw, w.response(0x52, 1)...)
+	if ry.Decode() == nil {
+		_ = w.agent.Agent.Process(ry)
+	}
+	if callsY != 1 {
+		w.mu.Lock()
+		nf := len(w.fallback)
+		w.mu.Unlock()
+		o.failf("history [Start(X): its first write fails; during that write the response for X is processed (X completes, its object is recycled) and Start(Y) gets the recycled object; response(Y)]: handler of Y called %d times, %d event(s) went to the fallback handler: the failing Start(X) unregistered Y", callsY, nf)
+	}
+	_ = w.client.Close()
+}
+
 func TestOracleC12(t *testing.T) {
 	o := newOracle(t)
+	o.recycledDuringFailingWrite()
 	for _, h := range []string{"sPTSsrR", "sPTsSRr", "sPTSLrR"} {
 		w := newOcWorld(o, 2, 100*time.Millisecond, false, true)
 		if w != nil {
